@@ -163,6 +163,20 @@ class _Pad(MustFlow):
         w = self.w
         for n in ast.walk(node) if not isinstance(node, ast.stmt) else [node]:
             pass
+        # the three spellings of "append the pad":  w.append(p) ; w += [p] ; w = w + [p]
+        padded_by = None
+        if isinstance(node, ast.AugAssign) and isinstance(node.target, ast.Name) and node.target.id == w and \
+                isinstance(node.op, ast.Add) and isinstance(node.value, ast.List) and len(node.value.elts) == 1:
+            padded_by = node.value.elts[0]
+        if isinstance(node, ast.Assign) and len(node.targets) == 1 and isinstance(node.targets[0], ast.Name) and \
+                node.targets[0].id == w and isinstance(node.value, ast.BinOp) and isinstance(node.value.op, ast.Add) and \
+                isinstance(node.value.left, ast.Name) and node.value.left.id == w and \
+                isinstance(node.value.right, ast.List) and len(node.value.right.elts) == 1:
+            padded_by = node.value.right.elts[0]
+        if padded_by is not None:
+            if isinstance(padded_by, ast.Name) and padded_by.id in self.pad_ok and ('deg', w) in state:
+                return (state - {('deg', w)}) | {('padded', w)}
+            return frozenset(f for f in state if not (isinstance(f, tuple) and f[1] == w)) | {('dirty', w)}
         # rebinding / mutation of the weight list
         if isinstance(node, ast.Assign):
             for t in node.targets:
@@ -230,11 +244,25 @@ def run(repo):
             wname = n.value.args[0].id
     if wname is None:
         raise AnalysisError('to_pot: `degree = sum(<weights>)` not found')
+    # the padding weight: what is put into the weight list (an expression of degree, read through its temporaries)
+    from .common import single_defs, expand_locals
+    tdefs = {k: v for k, v in single_defs(tp.node).items() if k != 'degree' and k != wname}
+    put = set()
+    for n in walk_no_nested(tp.node):
+        if isinstance(n, ast.Call) and isinstance(n.func, ast.Attribute) and ntext(n.func.value) == wname and \
+                n.func.attr in ('append', 'insert') and n.args and isinstance(n.args[-1], ast.Name):
+            put.add(n.args[-1].id)
+        if isinstance(n, ast.AugAssign) and ntext(n.target) == wname and isinstance(n.value, ast.List):
+            put |= {e.id for e in n.value.elts if isinstance(e, ast.Name)}
+        if isinstance(n, ast.Assign) and len(n.targets) == 1 and ntext(n.targets[0]) == wname and \
+                isinstance(n.value, ast.BinOp) and isinstance(n.value.right, ast.List):
+            put |= {e.id for e in n.value.right.elts if isinstance(e, ast.Name)}
     pads = {}
     for n in walk_no_nested(tp.node):
         if isinstance(n, ast.Assign) and len(n.targets) == 1 and isinstance(n.targets[0], ast.Name) and \
-                'degree' in ntext(n.value) and n.targets[0].id != 'degree':
-            pads[n.targets[0].id] = n.value
+                n.targets[0].id in put:
+            pads[n.targets[0].id] = expand_locals(tp.node, n.value, defs={k: v for k, v in tdefs.items()
+                                                                          if k != n.targets[0].id})
     good_pads = {k for k, v in pads.items() if _is_pad_expr(v)}
     for k, v in pads.items():
         rec(tp, 'padding %s = 2**ceil(log2(degree)) - degree' % k, k in good_pads,
@@ -319,8 +347,10 @@ def run(repo):
                 elif isinstance(st, ast.If):
                     t = st.test
                     rel_t, rel_f = list(rel), list(rel)
-                    if isinstance(t, ast.Compare) and len(t.ops) == 1 and isinstance(t.ops[0], ast.Eq):
-                        sy = Sym(sp_, defs, rel)
+                    if isinstance(t, ast.Compare) and len(t.ops) == 1 and isinstance(t.ops[0], (ast.Eq, ast.NotEq)):
+                        if isinstance(t.ops[0], ast.NotEq):
+                            rel_t, rel_f = rel_f, rel_t          # the equality holds in the else arm
+                        sy = Sym(sp_, {k_: v_ for k_, v_ in defs.items() if not isinstance(v_, tuple)}, rel)
                         try:
                             l, r = sy.value(t.left), sy.value(t.comparators[0])
                             d = sy.norm(l - r)
@@ -331,18 +361,33 @@ def run(repo):
                                 rel_t.append(('b', rest))
                         except AnalysisError:
                             pass
+                        if isinstance(t.ops[0], ast.NotEq):
+                            rel_t, rel_f = rel_f, rel_t          # back: rel_t belongs to the body
                     d1 = scan(st.body, defs, rel_t)
                     d2 = scan(st.orelse, defs, rel_f)
                     # definitions made in both arms are arm-specific; children were recorded inside
                     for k in set(d1) | set(d2):
                         if d1.get(k) is not d2.get(k):
                             defs.pop(k, None)
-                            if k in d1 and k in d2:
+                            if k in d1 and k in d2 and not (isinstance(d1[k], tuple) or isinstance(d2[k], tuple)):
                                 defs[k] = ('arms', st, d1[k], d2[k], rel_t, rel_f)
+                elif isinstance(st, ast.Expr) and isinstance(st.value, ast.Call) and \
+                        isinstance(st.value.func, ast.Attribute) and isinstance(st.value.func.value, ast.Name) and \
+                        st.value.func.value.id in defs and st.value.func.attr in ('append', 'insert') and \
+                        len(st.value.args) == (1 if st.value.func.attr == 'append' else 2) and \
+                        not isinstance(defs[st.value.func.value.id], tuple):
+                    # lst.append(v) / lst.insert(i, v): for the sum of the weights, lst + [v]
+                    nm_ = st.value.func.value.id
+                    defs[nm_] = ast.BinOp(left=defs[nm_], op=ast.Add(),
+                                          right=ast.List(elts=[st.value.args[-1]], ctx=ast.Load()))
                 else:
                     for c in ast.walk(st):
                         if isinstance(c, ast.Call) and isinstance(c.func, ast.Name) and c.func.id == 'IPCone':
                             children.append((c, dict(defs), list(rel)))
+                        elif isinstance(c, ast.Call) and isinstance(c.func, ast.Attribute) and \
+                                isinstance(c.func.value, ast.Name) and c.func.value.id in defs and \
+                                c.func.attr in ('append', 'insert', 'extend', 'pop', 'remove', 'clear', 'sort'):
+                            defs[c.func.value.id] = ('opaque', ntext(c)[:40])      # not followed; an error if it is used
             return defs
         # seed definitions from the function prologue
         pro = {}
@@ -356,6 +401,9 @@ def run(repo):
                 raise AnalysisError('split: IPCone(..) without a weight argument')
             # an arm-specific definition: check both alternatives
             alts = []
+            if isinstance(w, ast.Name) and isinstance(defs.get(w.id), tuple) and defs[w.id][0] == 'opaque':
+                raise AnalysisError('split: the weight list `%s` is changed by `%s`, a form the rule does not '
+                                    'interpret' % (w.id, defs[w.id][1]))
             if isinstance(w, ast.Name) and isinstance(defs.get(w.id), tuple):
                 _tag, _st, e1, e2, r1, r2 = defs[w.id]
                 alts = [(e1, r1), (e2, r2)]
